@@ -12,7 +12,7 @@ def main():
     out = os.environ.get('GV_OUT', '/tmp/vtest/gen')
     unit = os.environ.get('GV_UNIT', 'storage')
     if unit == 'world':
-        g = build_world_unit(Cfg(feats, dbg), out)
+        g = build_world_unit(Cfg(feats, dbg), out, n=n)
     elif unit == 'templates':
         g = build_templates_unit(Cfg(feats, dbg), n, out)
     else:
